@@ -100,6 +100,10 @@ def gen_case(seed: int, tier: str, index: int) -> Dict[str, Any]:
             # longer than one timeout, so the next retry is queued while the previous one has not left yet
             cfg["backlog"] = {"n": int(T * 50 * rng.choice([1.2, 2.0, 3.5])) + 2, "at": round(rng.uniform(0.0, N * T), 3)}
     elif sub == "handshake":
+        rng_p = random.Random(mix(seed, "c20.preempt-caller"))
+        if rng_p.random() < 0.5:
+            sched.update(preempt_p=rng_p.choice([0.1, 0.3, 0.6]), preempt_files=["/spa.py"], preempt_threads=["HARNESS", "main", "Main"],
+                         preempt_stall_p=rng_p.choice([0.3, 0.7]), preempt_stall_max=rng_p.choice([0.12, 0.3]))
         T = rng.choice([0.5, 1, 2])
         cfg["tables"] = {"idle": {"PROTOCOL_TIMEOUT_IN_SECONDS": T, "PROTOCOL_RETRY_COUNT": rng.choice([4, 10]), "PING_FREQUENCY_IN_SECONDS": rng.choice([2, 60])}}
         budget = cfg["tables"]["idle"]["PROTOCOL_RETRY_COUNT"]
@@ -544,7 +548,10 @@ def sub_handshake(world: WorldT) -> None:
     desc = GeckoSpaDescriptor(b"IOSverif-T", b"SPA01:02:03:04:05:06", "Udp Test Spa", (SPA_IP, SPA_PORT))
     spa = GeckoSpa(desc)
     t0 = world.now()
+    # start_connect() runs in the caller's thread while the engine thread is already running: the caller may be pre-empted between any two of
+    # its lines, and stay off the processor long enough for the engine to send what has been queued so far and receive the answer
     spa.start_connect()
+    world.sched.preempt_p = 0.0
     T = cfg["T"]
     lost = cfg["lost_attempts"]
     bound = (lost + 1) * (T + 0.2) + 27 * 0.06 * (lost + 1) + 5.0
@@ -579,6 +586,18 @@ def sub_handshake(world: WorldT) -> None:
     if spa.struct.status_block != sim.structure.status_block:
         diff = [i for i in range(1024) if spa.struct.status_block[i] != sim.structure.status_block[i]]
         world.violate(PROP, "handshake-block-mismatch", f"{ctx}: connected but the client block differs from the simulator's at {diff[:8]}")
+    if not unreliable:
+        # a step's request is transmitted once, plus once for every attempt of it the script lost (request or reply): an answered request is
+        # not transmitted again
+        for verb_req, verb_rep in (("AVERS", "SVERS"), ("CURCH", "CHCUR"), ("SFILE", "FILES")):
+            lost_here = sum(int(r.get("n", 1)) for r in cfg["net"]["rules"] if r.get("verb") in (verb_req, verb_rep))
+            sent = [r for r in world.net.history if r.verb == verb_req and r.src[0] != SPA_IP]
+            if len(sent) != 1 + lost_here:
+                world.violate(PROP, "retransmission-count", f"{ctx}: {verb_req} was transmitted {len(sent)} time(s) during the handshake, the script lost {lost_here} "
+                              f"attempt(s) of that step (caller pre-empted {world.sched.preemptions} time(s) inside start_connect)",
+                              sig="retransmission-count:handshake-step:" + ("more" if len(sent) > 1 + lost_here else "fewer"))
+    if world.sched.preemptions:
+        res.probe("caller_preempted_inside_start_connect")
     if fired:
         res.probe("handshake_with_losses")
     if any(r.get("verb") == "STATV" for r in cfg["net"]["rules"]) and fired:
@@ -665,7 +684,7 @@ ASSUMPTIONS = [
     "registration changes are made between datagrams, so 'the first registered handler that accepts it' is unambiguous",
     "the ping thread may die of the 45 s connection timeout in long loss patterns; the statement is about the handshake",
 ]
-PROBES = ["caller_told_too_long_while_the_handshake_goes_on", "first_send_of_a_request_fails", "handler_raised_in_can_handle", "backlog_longer_than_timeout", "registered_while_engine_tidies_up", "handshake_with_unknown_version", "unreliable_simulator_handshake_completed", "incoming_traffic_while_sending", "multi_caller", "preempted_inside_udp_socket", "handler_removed_while_running", "no_handler_accepts", "handler_raised_in_handle",
+PROBES = ["caller_told_too_long_while_the_handshake_goes_on", "caller_preempted_inside_start_connect", "first_send_of_a_request_fails", "handler_raised_in_can_handle", "backlog_longer_than_timeout", "registered_while_engine_tidies_up", "handshake_with_unknown_version", "unreliable_simulator_handshake_completed", "incoming_traffic_while_sending", "multi_caller", "preempted_inside_udp_socket", "handler_removed_while_running", "no_handler_accepts", "handler_raised_in_handle",
           "handler_raised_in_handled", "unanswered", "answered", "answer_after_removal", "handshake_with_losses", "segment_lost_during_handshake"]
 N_QUICK = 4800
 
